@@ -265,7 +265,15 @@ def run_case(c):
                     violations.append({"what": f"input {inp!r} fed symbol by symbol, first tree only (packetparser style): no complete parse after the last symbol, {len(ref_forest)} when fed at once",
                                        "mech": "partial-match-engine-classifies-characters-differently" if engines_disagree(inp) else None})
                 elif repr(shape(ip.collapse(first[0]))) not in ref_forest:
-                    violations.append({"what": f"input {inp!r} fed symbol by symbol: the complete parse differs from every parse of the whole input", "mech": None})
+                    # a parse the whole-input parser does not produce: the known longest-match mechanism if (and only if) it
+                    # is a genuine derivation of exactly this input
+                    mech = None
+                    tcol = ip.collapse(first[0])
+                    seq_ = treeval.leaf_seq(tcol)
+                    ser_ = treeval.to_bytes(seq_) if binary else treeval.to_str(seq_)
+                    if var_regex and not model.check_tree(tcol, "<start>") and ser_ == inp:
+                        mech = "regex-longest-match-only-when-fed-at-once"
+                    violations.append({"what": f"input {inp!r} fed symbol by symbol: the complete parse differs from every parse of the whole input", "mech": mech})
             else:
                 if first is not None and first[0] is not None and first[1]:
                     # known mechanism (seen from its other side): the whole-input parser only tries the LONGEST match of a
